@@ -194,6 +194,7 @@ func ruleA21(r *Run, p *Prog, rule string) {
 		r.Ob(rule, FnName(f)+"/loop", p.Pos(f.Pos()), false, true, "the claim is not inside a retry loop")
 		return
 	}
+	ruleRetryStateless(r, p, rule, f, hdr)
 	paths, complete := loopIterPaths(hdr, 2000)
 	if !complete {
 		r.Fail(rule, FnName(f)+"/paths", p.Pos(f.Pos()), "cannot enumerate iterations")
@@ -1134,5 +1135,77 @@ func ruleReaderAdvances(r *Run, p *Prog, rule string) {
 			}
 		}
 		r.Ob(rule, FnName(f)+"/advances", p.Pos(f.Pos()), okAll && n > 0, true, tern(okAll && n > 0, fmt.Sprintf("%d delivering path(s): each ends with readIndex = readIndex + 1", n), "a path of TryNext delivers a message without finally advancing readIndex by one: the read head stays on the emptied slot and newer messages are never read (lost without an alert)"))
+	}
+}
+
+// ruleRetryStateless: every attempt of Set starts from scratch: nothing read from a ring slot in one
+// attempt is still used after the retry (a bucket remembered from an attempt that lost its race is
+// not the one a later attempt has taken out of the ring: whoever is handed it — a pool, a callback —
+// gets a message that is still queued or already delivered).
+func ruleRetryStateless(r *Run, p *Prog, rule string, f *ssa.Function, hdr *ssa.BasicBlock) {
+	body := loopBlocks(hdr)
+	fromSlot := map[ssa.Value]bool{}
+	for changed := true; changed; {
+		changed = false
+		for b := range body {
+			for _, in := range b.Instrs {
+				v, ok := in.(ssa.Value)
+				if !ok || fromSlot[v] {
+					continue
+				}
+				mark := false
+				if c, isC := in.(*ssa.Call); isC && (isCallTo(&c.Call, "sync/atomic.LoadPointer") || isCallTo(&c.Call, "sync/atomic.SwapPointer")) {
+					mark = true
+				}
+				switch in.(type) {
+				case *ssa.ChangeType, *ssa.Convert, *ssa.Phi, *ssa.FieldAddr, *ssa.UnOp, *ssa.MakeInterface:
+					for _, op := range in.Operands(nil) {
+						if op != nil && *op != nil && fromSlot[*op] {
+							mark = true
+						}
+					}
+				}
+				if mark {
+					fromSlot[v] = true
+					changed = true
+				}
+			}
+		}
+	}
+	stale := ""
+	for _, in := range hdr.Instrs {
+		ph, ok := in.(*ssa.Phi)
+		if !ok {
+			break
+		}
+		for k, e := range ph.Edges {
+			if body[hdr.Preds[k]] && fromSlot[e] && e != ssa.Value(ph) {
+				stale = ph.Comment
+			}
+		}
+	}
+	r.Ob(rule, FnName(f)+"/retry-stateless", p.Pos(hdr.Instrs[0].Pos()), stale == "", true, tern(stale == "", "no value read from a ring slot is carried from one attempt of Set into the next", "the variable "+stale+" carries a bucket read from a ring slot across a retry of Set: after an attempt that lost its race it still designates a bucket this producer never took out of the ring (handing it to a pool or a callback releases a message that is still queued, being delivered, or already released)"))
+}
+
+// ruleSetRetryStateless locates the claim loop of ManyToOne.Set and applies ruleRetryStateless.
+func ruleSetRetryStateless(r *Run, p *Prog, rule string) {
+	f := p.Method(diodesRel, "ManyToOne", "Set")
+	if !r.Anchor(f != nil, rule, "diodes.(*ManyToOne).Set") {
+		return
+	}
+	var claim *ssa.Call
+	eachInstr(f, func(b *ssa.BasicBlock, i int, in ssa.Instruction) {
+		if c, ok := in.(*ssa.Call); ok && isCallTo(&c.Call, "sync/atomic.AddUint64") {
+			claim = c
+		}
+	})
+	if claim == nil {
+		return
+	}
+	for _, b := range f.Blocks {
+		if isLoopHeader(b) && loopBlocks(b)[claim.Block()] {
+			ruleRetryStateless(r, p, rule, f, b)
+			return
+		}
 	}
 }
